@@ -60,3 +60,26 @@ def run(fd, fn, args, kwargs=None, bound_self=None, what=''):
         return None, r
     except Inconclusive as e:
         raise AnalysisError("%s is outside the decidable fragment: %s" % (what or getattr(fn, '_qualname', fn), e))
+
+
+def init_literals(mod, clsname):
+    """{attribute: value} for every `self.X = <literal>` of the class's __init__ (numbers, strings, None, booleans,
+    empty containers): the private bookkeeping a symbolic `self` needs, under whatever names the code uses."""
+    import ast
+    out = {}
+    try:
+        init = mod.func(clsname + '.__init__')
+    except AnalysisError:
+        return out
+    for n in ast.walk(init):
+        if isinstance(n, ast.Assign):
+            for t in n.targets:
+                if isinstance(t, ast.Attribute) and isinstance(t.value, ast.Name) and t.value.id == 'self':
+                    v = n.value
+                    if isinstance(v, ast.Constant) and isinstance(v.value, (int, float, str, bool, type(None))):
+                        out.setdefault(t.attr, v.value)
+                    elif isinstance(v, (ast.List, ast.Tuple)) and not v.elts:
+                        out.setdefault(t.attr, [] if isinstance(v, ast.List) else ())
+                    elif isinstance(v, ast.Dict) and not v.keys:
+                        out.setdefault(t.attr, {})
+    return out
